@@ -513,7 +513,9 @@ impl Expansion<'_> {
                             let placeholder =
                                 trait_name_to_default_placeholder_literal(trait_ident);
 
-                            quote! { &derive_more::core::format_args!(#placeholder, #ident) }
+                            // `#ident` is a reference to the field: dereference it, so that the
+                            // field itself is formatted (matters for `Pointer`).
+                            quote! { &derive_more::core::format_args!(#placeholder, *#ident) }
                         } else {
                             quote! {
                                 derive_more::core::fmt::#trait_ident::fmt(#ident, __derive_more_f)
